@@ -108,3 +108,51 @@ def _(c):
     c.modifies('new')
     c.epoch_preserving()
     c.native_gen(_gen_retrieve)
+
+
+# ---------------------------------------------------------------------------------------------------------------------
+# C03: "never resurrected" rests on `alive` / `destroy_time` / `generation` being written only by the constructors and destroy().
+# The frame obligations show it for every function under contract; this scan (run on every check, a syntactic runner, not a proof)
+# shows that no other non-test code assigns these attributes at all.
+def _c03_writer_scan(tier, seed):
+    import ast, json, os
+    from pyvc import repo
+    allowed = {'alive': {('core.wl.object', 'ObjectBase.__init__'), ('core.wl.object', 'ObjectBase.destroy')},
+               'destroy_time': {('core.wl.object', 'ObjectBase.__init__'), ('core.wl.object', 'ObjectBase.destroy')},
+               'generation': {('core.wl.object', 'ObjectBase.__init__'), ('core.wl.object', 'ResolvedObject.__init__'), ('core.wl.object', 'MockObject.__init__'),
+                              ('core.wl.object', 'UnresolvedObject.__init__')}}
+    bad, seen = [], 0
+    for m in repo.NON_TEST_MODULES:
+        try:
+            mod = repo.load(m)
+        except Exception:
+            continue
+        tree = ast.parse(open(mod.__file__).read())
+        def walk(node, fn):
+            nonlocal seen
+            for ch in ast.iter_child_nodes(node):
+                f2 = fn
+                if isinstance(ch, (ast.FunctionDef, ast.ClassDef)):
+                    f2 = (fn + '.' if fn else '') + ch.name
+                if isinstance(ch, ast.Attribute) and isinstance(ch.ctx, (ast.Store, ast.Del)) and ch.attr in allowed:
+                    seen += 1
+                    if (m, fn) not in allowed[ch.attr]:
+                        bad.append({'what': 'lifetime attribute %s assigned outside the constructors / destroy()' % ch.attr, 'where': '%s.%s' % (m, fn), 'line': ch.lineno})
+                walk(ch, f2)
+        walk(tree, '')
+    out = {'coverage': {'bounded_standins': [{'function': 'writer scan for ObjectBase.alive / destroy_time / generation over all non-test modules (syntactic)',
+                                               'bound': 'exhaustive over the %d non-test modules' % len(repo.NON_TEST_MODULES), 'evaluations': seen, 'violations': len(bad), 'counted_as_proved': False}]},
+           'violations': [], 'lines': []}
+    if seen == 0:
+        bad.append({'what': 'writer scan found no assignment at all (scan broken?)'})
+    if bad:
+        rp = os.path.join(os.environ.get('VERIF_REPLAY_DIR', os.path.join(os.path.dirname(os.path.dirname(os.path.abspath(__file__))), 'replays')), 'C03')
+        os.makedirs(rp, exist_ok=True)
+        path = os.path.join(rp, 'writer_scan.json')
+        json.dump({'property': 'C03', 'kind': 'bounded-counterexample', 'function': 'writer scan', 'inputs': bad}, open(path, 'w'), indent=1)
+        out['violations'].append({'path': path, 'suffix': '', 'what': bad[0]['what']})
+    return out
+
+
+from pyvc import contracts as _c
+_c.PROP_RUNNERS.setdefault('C03', []).append(_c03_writer_scan)
